@@ -39,7 +39,8 @@ ASSUMPTIONS = ["independent crypto anchored on AN159 vectors (sim.crypto.anchor_
 KINDS = ["genuine", "genuine", "genuine", "replay", "lower", "equal", "jump", "forged", "wrong_key", "wrong_sid", "plain",
          "nested", "remote_diag", "garbage_inner", "session_response_replay"]
 PLAIN_SVCS = [W.TUNNEL_REQ, W.CONNSTATE_RES, W.DISCONNECT_REQ, W.SESSION_STATUS, W.CONNECT_RES, W.TUNNEL_ACK, W.ROUTING_IND,
-              W.SEARCH_RES, W.DESCR_RES, W.SESSION_AUTH, W.TIMER_NOTIFY]
+              W.SEARCH_RES, W.DESCR_RES, W.SESSION_AUTH, W.TIMER_NOTIFY, W.SESSION_REQ, W.SESSION_REQ, 0x0201, 0x0203, 0x0207,
+              0x0310, 0x0530, 0x0532]
 
 
 def preflight():
@@ -99,6 +100,7 @@ def run(plan: dict[str, Any]) -> dict[str, Any]:
     expected: list[tuple[int, int]] = []       # model
     last_acc: dict[int, int] = {}              # per tcp connection: last accepted counter (model)
     info: dict[str, Any] = {"connect": None}
+    wrapped_svcs: set[int] = set()             # service types the gateway ever sent inside a (genuine) wrapper
 
     def bus(cemi, ch):
         if cemi and cemi[0] == W.L_DATA_REQ:
@@ -135,6 +137,11 @@ def run(plan: dict[str, Any]) -> dict[str, Any]:
             return W.frame(W.SESSION_AUTH, bytes(18))
         if svc == W.TIMER_NOTIFY:
             return C.timer_notify(bytes(16), 1, bytes(6), bytes(2))
+        if svc == W.SESSION_REQ:
+            # a well-formed SessionRequest (what the client itself sends): HPAI for TCP + an X25519 public key
+            return W.frame(W.SESSION_REQ, W.hpai(tcp=True) + bytes(range(32)))
+        if svc == 0x0532:
+            return W.frame(0x0532, bytes((0x00, 0x00)))      # RoutingBusy-sized body
         if svc == W.SEARCH_RES:
             return W.frame(W.SEARCH_RES, W.hpai("10.0.0.2", 3671) + bytes((0x36, 0x01)) + bytes(52))
         return W.frame(svc, b"")
@@ -181,6 +188,8 @@ def run(plan: dict[str, Any]) -> dict[str, Any]:
         orig_send_wrapped = gw.send_wrapped
 
         def send_wrapped(s, plain, lat=None, accept=True):
+            if accept and len(plain) >= 4:
+                wrapped_svcs.add(struct.unpack(">H", plain[2:4])[0])
             fr = orig_send_wrapped(s, plain, lat=lat)
             if accept:
                 last_acc[s.conn.cid] = s.tx_seq - 1
@@ -210,6 +219,7 @@ def run(plan: dict[str, Any]) -> dict[str, Any]:
                     # a wrapper right behind the SessionResponse (with luck in the same segment): the session may or may
                     # not be initialised when it is processed, so its delivery is unjudged - it must only not raise
                     w = gw.make_wrapper(s, inner_for(W.TUNNEL_REQ, early[0]["id"]))
+                    wrapped_svcs.add(W.TUNNEL_REQ)
                     last_acc[conn.cid] = -2   # unknown from here until the next accepted protocol frame
                     conn.send_to_client(b"".join(captured) + w)   # one segment: SessionResponse + wrapper
                     R.extra_faults["wrapper_before_session_initialised"] += 1
@@ -367,7 +377,11 @@ def run(plan: dict[str, Any]) -> dict[str, Any]:
                 R.violate("C29.accept-only-fresh", "delivered-out-of-order", f"{order[:6]} vs {exp[:6]}")
     # plain frames never delivered (except SessionResponse before authentication, which is consumed by the handshake)
     for (svc, pid) in delivered:
-        if svc in (W.ROUTING_IND, W.SEARCH_RES, W.DESCR_RES, W.TIMER_NOTIFY, W.SESSION_AUTH):
+        if svc not in wrapped_svcs and svc != W.SESSION_RES:
+            # generic form: whatever reaches callbacks was sent inside a wrapper (or is the SessionResponse of the handshake)
+            R.violate("C29.accept-only-fresh", f"plain-frame-delivered:{W.SVC_NAMES.get(svc, hex(svc))}",
+                      "a frame of a service type the gateway never sent wrapped reached callbacks")
+        if svc in (W.ROUTING_IND, W.SEARCH_RES, W.DESCR_RES, W.TIMER_NOTIFY, W.SESSION_AUTH, W.SESSION_REQ):
             R.violate("C29.accept-only-fresh", f"plain-frame-delivered:{W.SVC_NAMES.get(svc)}", "a frame that was only ever sent in plain reached callbacks")
         if svc in (W.CONNSTATE_RES, W.DISCONNECT_REQ, W.TUNNEL_ACK) and pid in (200, 201, 202):
             R.violate("C29.accept-only-fresh", f"plain-frame-delivered:{W.SVC_NAMES.get(svc)}", "plain injected frame reached callbacks")
